@@ -437,6 +437,7 @@ def plan(tier, seed):
         for i in range(16):
             tasks.append(("header", {"mode": "all", "shard": i, "of": 16}))
     tasks.append(("bytes256", {}))
+    tasks.append(("text_accept", {"full": not quick}))
     tasks.append(("doubles", {"n": 3000 if quick else 100000}))
     return tasks
 
@@ -514,6 +515,19 @@ def run_task(name, kw, ctx):
                         ctx.report(check_case(case))
     elif name == "doubles":
         _doubles_task(kw, ctx)
+    elif name == "text_accept":
+        # which CHARACTERS do the text types accept as str, and does every accepted one round-trip?
+        cps = set(range(0, 0x300)) | {0x00A5, 0x203E} | set(range(0xFF00, 0x10000)) | {0x2000 + i * 37 for i in range(200)}
+        if kw["full"]:
+            cps = set(range(0, 0x10000)) - set(range(0xD800, 0xE000))
+        for f in ("A", "J"):
+            for cp in sorted(cps):
+                for ctx_form in ("single", "embedded"):
+                    case = {"text_accept": {"f": f, "cp": cp, "form": ctx_form}}
+                    ctx.case(case, cp >= 0x80 or cp in (0x5C, 0x7E, 0x22), [f"text-accept:{f}"])
+                    ctx.report(check_text_accept(case["text_accept"]))
+            if ctx.out_of_time():
+                return
 
 
 def _strip(f, small_case):
@@ -658,7 +672,40 @@ def check_doubles(case):
     return None
 
 
+def check_text_accept(tc):
+    """A str the text type accepts must encode per the reference character table and decode back to the same str."""
+    f, cp = tc["f"], tc["cp"]
+    text = chr(cp) if tc["form"] == "single" else "a" + chr(cp) + "b"
+    cls = sg.cls_of(f)
+    case = {"text_accept": tc}
+    try:
+        obj = cls(text)
+    except Exception:
+        return None  # not an accepted value
+    table = e5.JIS8_REV if f == "J" else {i: i for i in range(256)}
+    try:
+        got = obj.encode()
+    except Exception as exc:
+        return Failure(f"text-accepted-but-encode-raises:{f}", case, _exc(exc), "bytes")
+    if any(ord(c) not in table for c in text):
+        return Failure(f"text-accepted-outside-repertoire:{f}", case, got.hex(), f"U+{cp:04X} has no {f} byte: reject it")
+    exp = e5.encode((f, bytes(table[ord(c)] for c in text)))
+    if got != exp:
+        return Failure(f"text-accepted-encode-mismatch:{f}", case, got.hex(), exp.hex())
+    try:
+        fresh = cls()
+        pos = fresh.decode(got)
+        back = fresh.get()
+    except Exception as exc:
+        return Failure(f"text-accepted-decode-raises:{f}", case, _exc(exc), "decodes")
+    if pos != len(got) or back != text:
+        return Failure(f"text-accepted-but-not-roundtrip:{f}", case, repr(back), repr(text))
+    return None
+
+
 def replay(case, ctx):
+    if "text_accept" in case:
+        return check_text_accept(case["text_accept"])
     if "header" in case:
         return check_header(case["header"])
     if "doubles" in case:
